@@ -867,6 +867,9 @@ class Interp:
         env = Env(fn.env)
         self.bind_params(fn, args, kwargs, env)
         a = _cargs(env.vars)
+        if getattr(c, "_v", None) is None or c._v.path is not self.path:
+            c._v = Vocab(self.path)     # the callee's contract reads the caller's path ghost
+            c._I = self
         ordn = self.path.ordinal(("pre", c.target))
         short = c.target.split(":")[1]
         for nm, cond in _named(c.requires(**a)):
@@ -890,6 +893,9 @@ class Interp:
         else:
             ens = c.ensures(res, **a)
         for nm, cond in _named(ens):
+            if nm in getattr(c, "not_assumed", ()):
+                # a clause recorded as a known finding (refuted on the current tree) is never assumed by callers
+                continue
             self.path.assume(cond)
         if ghost is not None:
             self.path.ghost.setdefault("calls", []).append((c.target, a, res, ghost))
